@@ -16,6 +16,7 @@ from __future__ import annotations
 
 import asyncio
 import collections
+import collections
 import enum
 import itertools
 import json
@@ -147,11 +148,26 @@ def canon_write_result(res, table="hap"):
     return out
 
 
+class Deliveries(dict):
+    """id -> last value told to listeners (what the older oracles look at), plus the call log itself:
+    .deliv = every (id, value) delivered, in call order (ids sorted inside one call),
+    .calls = listener calls made, .empty = calls made with an empty dict."""
+    deliv = ()
+    calls = 0
+    empty = 0
+
+
 def merge_log(log):
-    out = {}
+    out = Deliveries()
+    out.deliv = []
     for ev in log:
-        for k, v in ev.items():
-            out[k] = v.get("value") if isinstance(v, dict) else "?"
+        out.calls += 1
+        if not ev:
+            out.empty += 1
+        for k, v in sorted(ev.items()):
+            val = v.get("value") if isinstance(v, dict) else "?"
+            out[k] = val
+            out.deliv.append((k, val))
     return out
 
 
@@ -166,7 +182,8 @@ def fmt_write(r):
         return r
     R, L = r
     return " ".join(["ok", "R"] + [f"{ks(k)}:{oz(v[0])}:{v[1]}" for k, v in sorted(R.items())]
-                    + ["L"] + [f"{ks(k)}={v}" for k, v in sorted(L.items())])
+                    + ["L"] + [f"{ks(k)}={v}" for k, v in sorted(getattr(L, "deliv", None) or L.items())]
+                    + ([f"E{L.empty}"] if getattr(L, "empty", 0) else []))
 
 
 def exc_class(e):
@@ -337,9 +354,13 @@ class IpRig(Rig):
         elif code == "207empty":
             self.reply = Resp(207, b"{}")
         elif code == "nolist":
-            self.reply = Resp(207, json.dumps({"status": -70401}).encode())
+            g = case.get("g", -70401)
+            self.reply = Resp(207, json.dumps({"status": g} if g is not None else {"vendor": 1}).encode())
         else:
-            self.reply = Resp(207, json.dumps({"characteristics": [entry_json(e) for e in case["entries"]]}).encode())
+            body = {"characteristics": [entry_json(e) for e in case["entries"]]}
+            if case.get("g") is not None:           # a list AND a request-wide status (the code ignores the latter)
+                body["status"] = case["g"]
+            self.reply = Resp(207, json.dumps(body).encode())
         self.log.clear()
         try:
             res = await self.pairing.put_characteristics([tuple(q) for q in case["reqs"]])
@@ -501,6 +522,8 @@ class BleRig(Rig):
             except Exception as e:  # noqa
                 out = exc_class(e)
         for ev in self.log:
+            if len(ev) != 1:                       # BLE announces each accepted item on its own
+                notes.append(f"?call-with-{len(ev)}-ids")
             for k, v in ev.items():
                 notes.append(f"{ks(k)}={v.get('value')}")
         return ("N " + " ".join(notes)).strip() + " ; " + out
@@ -556,8 +579,35 @@ def oracle_read(case, res, stream):
 
 def ipput_in_domain(case):
     if case["code"] == "nolist":
-        return False
+        # a reply that carries a non-zero request-wide status and no per-characteristic list rejects the
+        # whole request; without such a status it carries no verdict at all (compared, not judged)
+        return case.get("g", -70401) not in (None, 0)
+    if case.get("g") not in (None, 0):
+        return False        # list + non-zero request-wide status: what it means for unmentioned ids is not fixed by the property
     return not any(e[0] == "E" and e[3] is None for e in case["entries"])
+
+
+def oracle_request_wide(case, res):
+    """The accessory answered with a request-wide error status and no list: every written id is rejected.
+    'A write never presents a rejected characteristic as written: each rejected characteristic is reported
+    with the accessory's non-zero status (or the call fails)'."""
+    if isinstance(res, str):
+        return None                                    # the call failed
+    g = case.get("g", -70401)
+    R, L = res
+    for a, i, v in case["reqs"]:
+        k = (a, i)
+        if k in L:
+            return ("request-wide-error-presented-as-written",
+                    f"ipput: the reply was the request-wide error {{\"status\": {g}}} without a list, the call returned and "
+                    f"listeners were told {ks(k)}={L[k]}")
+        if k not in R or R[k][0] == 0:
+            return ("request-wide-error-presented-as-written",
+                    f"ipput: the reply was the request-wide error {{\"status\": {g}}} without a list, the call returned "
+                    f"{'without mentioning ' + ks(k) if k not in R else 'status 0 for ' + ks(k)}")
+        if R[k][0] != g:
+            return ("request-wide-status-not-as-sent", f"ipput: {ks(k)} reported with status {R[k][0]}, the accessory sent {g}")
+    return None
 
 
 def oracle_write(stream, reqs, readable, sts, res, listed_code, descr_of):
@@ -601,12 +651,20 @@ def oracle_write(stream, reqs, readable, sts, res, listed_code, descr_of):
     for k in sorted(L):
         if L[k] not in reqvals[k]:
             return ("listener-wrong-value", f"{stream}: listeners got {L[k]} for {ks(k)}, written {reqvals[k]}")
+    # exactly once: one write call tells listeners about an accepted readable id one time
+    seen = collections.Counter(k for k, _ in getattr(L, "deliv", ()))
+    for k in sorted(seen):
+        if seen[k] > 1:
+            return ("delivered-twice", f"{stream}: listeners were told a value for {ks(k)} {seen[k]} times by one write "
+                                       f"(call log: {[(ks(a), v) for a, v in L.deliv]})")
     return None
 
 
 def oracle_ipput(case, res):
     if not ipput_in_domain(case):
         return None
+    if case["code"] == "nolist":
+        return oracle_request_wide(case, res)
     sts = {}
     if case["code"] == "207":
         for e in case["entries"]:
@@ -763,6 +821,8 @@ def gen_ipput(tier, r):
             for pmix in itertools.product([RW, WO], repeat=n):
                 perms = {ks(k): p for k, p in zip(layout, pmix)}
                 cases.append(dict(kind="ipput", src="shape", reqs=reqs, perms=perms, code="204", entries=[]))
+                for g in (-70407, 70403, -1, 12345, 0, None):      # request-wide status, no list
+                    cases.append(dict(kind="ipput", src="shape", reqs=reqs, perms=perms, code="nolist", g=g, entries=[]))
                 for mask in range(1 << n):
                     listed = [k for j, k in enumerate(layout) if mask >> j & 1]
                     for vec in itertools.product(A_RED2, repeat=len(listed)):
@@ -796,7 +856,12 @@ def gen_ipput(tier, r):
             for _ in range(r.choice([0, 0, 1, 1, 2, 3])):
                 a, i = r.choice(ids)
                 es.insert(r.randrange(len(es) + 1), ["M", r.randrange(9), a, i])
-        cases.append(dict(kind="ipput", src="random", reqs=reqs, perms=perms, code=code, entries=es))
+        c = dict(kind="ipput", src="random", reqs=reqs, perms=perms, code=code, entries=es)
+        if code == "nolist":
+            c["g"] = r.choice([None, 0] + A_FULL)
+        elif code == "207" and r.random() < 0.08:
+            c["g"] = r.choice([0, -70407, 70403, 99])
+        cases.append(c)
     return cases
 
 
@@ -1394,7 +1459,10 @@ def run(ctx):
                  sample=dict(stream="ipput", case=c, impl=fmt_write(res)) if idx % 3001 == 29 else None,
                  put_src=c["src"], put_code=c["code"], put_reqs=len(c["reqs"]), put_status_mix=mix,
                  put_malformed=sum(1 for e in c["entries"] if e[0] == "M"), put_in_domain=ipput_in_domain(c),
-                 put_perm_mix="+".join(sorted(set(c["perms"].values()))), put_result=fmt_write(res).split(" ")[0])
+                 put_perm_mix="+".join(sorted(set(c["perms"].values()))), put_result=fmt_write(res).split(" ")[0],
+                 put_listener_calls=res[1].calls if not isinstance(res, str) else "-",
+                 put_nolist_status=("-" if c["code"] != "nolist" else
+                                    ("none" if c.get("g", 1) is None else ("zero" if c.get("g", 1) == 0 else "error"))))
     if first_drop is not None:
         small = shrink_ipput(first_drop, ip, loop)
         sres = loop.run_until_complete(ip.put(small))
@@ -1426,6 +1494,7 @@ def run(ctx):
         cov.case("rw" + json.dumps(c, sort_keys=True), bool(c["reqs"]),
                  sample=dict(stream="ipput-reactive", case=c, requests_sent=sent, impl=fmt_write(res)) if idx % 2503 == 5 else None,
                  rput_src=c["src"], rput_requests=len(sent), rput_aids=len({a for a, _, _ in c["reqs"]}),
+                 rput_listener_calls=res[1].calls if not isinstance(res, str) else "-",
                  rput_mix="all-accepted" if all(v == 0 for v in vals) else ("all-rejected" if all(v != 0 for v in vals) else "mixed"),
                  rput_rejecting_aids=len({int(k.split(".")[0]) for k, v in c["table"].items() if v != 0}))
     pend = []
@@ -1472,6 +1541,7 @@ def run(ctx):
         cov.case("cw" + json.dumps(c, sort_keys=True), bool(c["reqs"]) and bool(c["results"]),
                  sample=dict(stream="coapput", case=c, impl=fmt_write(res)) if idx % 2003 == 11 else None,
                  coapput_result=fmt_write(res).split(" ")[0],
+                 coapput_listener_calls=res[1].calls if not isinstance(res, str) else "-",
                  coapput_mix="+".join(sorted({x[0] for x in c["results"]})) or "none")
 
     # ---- BLE
@@ -1531,8 +1601,15 @@ def run(ctx):
         f"n <= {nm} (reads: x 6 global statuses x 3 requested-set variants, n <= 3); CoAP: every result vector over value/8 PDU statuses, "
         f"n <= {nm}; BLE: every (permission kind, s1, s2) combination for n <= 2 items")
     cov.extra["domain_exclusions"] = [
-        "ipput oracle: replies whose well-formed entries lack 'status' and non-empty reply dicts without 'characteristics' are outside "
-        "the quantifier (the code raises KeyError; modelled as Crash and compared, not judged)",
+        "ipput oracle: replies whose well-formed entries lack 'status', and non-empty reply dicts without 'characteristics' that carry "
+        "no (or a zero) request-wide status, are outside the quantifier (the code raises KeyError; modelled as Crash and compared, "
+        "not judged). A reply with a NON-ZERO request-wide status and no list IS judged: every written id counts as rejected, so the "
+        "call must fail or report each id with that status and notify nobody (oracle_request_wide)",
+        "ipput replies that carry a list AND a non-zero request-wide status are compared with the model (the code ignores the "
+        "top-level status of a write reply) but not judged",
+        "listener call log: every (id, value) delivered is kept (a second delivery of one id by one IP/CoAP write is judged as "
+        "delivered-twice; calls with an empty dict are compared with the model, which never makes one); how the deliveries are "
+        "batched into calls is recorded in the histograms (put_listener_calls) but not compared",
         "ipput with contradictory duplicate entries for one id: judged only on the unconditional parts (rejected => not notified and "
         "reported; reported status is one the accessory sent)",
         "coap: more results than ids (IndexError, modelled as Crash) and PDUStatus.SUCCESS objects in the result list (cannot come out "
